@@ -94,25 +94,46 @@ def run(ctx):
 
 
 def slip_case(am, defect, c, perm, inv, shift, u):
-    pbc = [True, True, False]
-    s0, P = build(am, c, perm, shift, pbc)
+    # the specification's slip plane is normal to z with free surfaces along z; the replay also presents the same problem with the axes
+    # cyclically renamed (normal along x or y, the non-periodic direction moving with it), and hands the tools the slipped system
+    # either as displaced or wrapped back into the cell -- both drawn from a hash of the case
+    ax = np.roll(np.arange(3), _pick(c, 3))              # new component i = old component ax[i]
+    wrapped = _pick(c, 7) % 2 == 1
+    pbc0 = [True, True, False]
+    s0o, P = build(am, c, perm, shift, pbc0)
+    V = s0o.box.vects[ax][:, ax]
+    pbc = [pbc0[k] for k in ax]
+    shiftp = np.asarray(shift)[ax]
+    s0 = am.System(atoms=am.Atoms(atype=s0o.atoms.atype, pos=s0o.atoms.pos[:, ax]), box=am.Box(vects=V, origin=shiftp), pbc=pbc)
     above = np.array([a['above'] for a in c['atoms']])[perm]
-    s = np.array(c['s8'], dtype=float) / 8 * u
+    s = (np.array(c['s8'], dtype=float) / 8 * u)[ax]
     s1 = am.System(atoms=am.Atoms(atype=s0.atoms.atype, pos=s0.atoms.pos + np.outer(above, s)), box=s0.box, pbc=pbc)
     cutoff = np.sqrt(c['cut2']) * u
-    exp_slip = np.array([a['slip8'] for a in c['atoms']], dtype=float)[perm] / 8 * u
+    exp_slip = (np.array([a['slip8'] for a in c['atoms']], dtype=float)[perm] / 8 * u)[:, ax]
     # displacement through the periodic boundaries (the slipped system is wrapped first)
     s1w = am.System(atoms=am.Atoms(atype=s1.atoms.atype, pos=s1.atoms.pos.copy()), box=s1.box, pbc=pbc)
     s1w.wrap()
     disp = am.displacement(s0, s1w)
     if not np.allclose(disp, np.outer(above, s), atol=1e-9):
         return ('displacement is not the imposed displacement', 'max diff %r' % np.abs(disp - np.outer(above, s)).max())
-    sv = defect.slip_vector(s0, s1, cutoff=cutoff)
+    s1u = s1w if wrapped else s1
+    where = ' [normal along %s, slipped system %s]' % ('xyz'[list(ax).index(2)], 'wrapped' if wrapped else 'as displaced')
+    sv = defect.slip_vector(s0, s1u, cutoff=cutoff)
     if not np.allclose(sv, exp_slip, atol=1e-9):
         k = int(np.argmax(np.abs(sv - exp_slip).sum(axis=1)))
-        return ('slip vector is not (neighbours across the plane) x (relative slip)', 'atom %d got %s expected %s' % (k, sv[k].tolist(), exp_slip[k].tolist()))
+        return ('slip vector is not (neighbours across the plane) x (relative slip)', 'atom %d got %s expected %s' % (k, sv[k].tolist(), exp_slip[k].tolist()) + where)
     # differential displacement of every neighbour pair
-    dd = defect.DifferentialDisplacement(s0, s1, cutoff=cutoff, reference=0)
+    # one-shot, deferred (constructed without neighbours, solved later) or re-solved on the same object after another cutoff
+    route = _pick(c, 5) % 3
+    if route == 0:
+        dd = defect.DifferentialDisplacement(s0, s1u, cutoff=cutoff, reference=0)
+    elif route == 1:
+        dd = defect.DifferentialDisplacement(s0, s1u, reference=0)
+        dd.solve(cutoff=cutoff)
+    else:
+        dd = defect.DifferentialDisplacement(s0, s0, cutoff=cutoff, reference=0)
+        dd.solve(system1=s1u)              # neighbours carried on the object
+        dd.solve(cutoff=cutoff)            # systems carried on the object
     nl = s0.neighborlist(cutoff=cutoff)
     want = []
     for i in range(s0.natoms):
@@ -120,13 +141,21 @@ def slip_case(am, defect, c, perm, inv, shift, u):
             want.append((float(above[j]) - float(above[i])) * s)
     want = np.array(want)
     if dd.ddvectors.shape != want.shape or not np.allclose(dd.ddvectors, want, atol=1e-9):
-        return ('differential displacement of a pair is not the difference of the imposed displacements', 'shape %s vs %s' % (dd.ddvectors.shape, want.shape))
+        return ('differential displacement of a pair is not the difference of the imposed displacements', 'shape %s vs %s' % (dd.ddvectors.shape, want.shape) + where)
     # disregistry across the plane
     zp = c['zp2'] / 2 * u + shift[2]
-    coord, dis = defect.disregistry(s0, s1, m=[1, 0, 0], n=[0, 0, 1], planepos=[shift[0], shift[1], zp])
+    m = np.array([1.0, 0, 0])[ax]
+    n = np.array([0, 0, 1.0])[ax]
+    planepos = np.array([shift[0], shift[1], zp])[ax]
+    coord, dis = defect.disregistry(s0, s1u, m=m, n=n, planepos=planepos)
     if not np.allclose(dis, s, atol=1e-9):
-        return ('disregistry is not the slip', 'got %s expected %s' % (dis[:2].tolist(), s.tolist()))
+        return ('disregistry is not the slip', 'got %s expected %s' % (dis[:2].tolist(), s.tolist()) + where)
     return None
+
+
+def _pick(c, n):
+    import zlib
+    return (zlib.crc32(json.dumps(c, sort_keys=True, default=str).encode()) >> 5) % n
 
 
 def homog_case(am, defect, c, perm, inv, shift, u):
@@ -152,6 +181,22 @@ def homog_case(am, defect, c, perm, inv, shift, u):
         return ('first strain invariant is not the trace of the strain', '')
     if np.abs(st.nye).max() > 1e-8:
         return ('Nye tensor does not vanish for a homogeneous deformation', 'max %r' % np.abs(st.nye).max())
+    # the function interface with explicit p vectors taken from the reference crystal
+    nl0 = s0.neighborlist(cutoff=np.sqrt(c['cut2']) * u)
+    pv = s0.dvect(0, nl0[0])
+    if len(set(a['t'] for a in c['atoms'])) == 1 and c['crystal'] != 'sc':
+        # the class with ONE list of p vectors shared by all atoms (array, nested list or a list holding the one list)
+        arg = [pv, pv.tolist(), [pv]][_pick(c, 3)]
+        if len(pv) == s1.natoms:          # as many p vectors as atoms: a bare list would be read as one vector per atom
+            arg = [pv]
+        st2 = defect.Strain(s1, cutoff=cutoff, p_vectors=arg, theta_max=27)
+        if not np.allclose(st2.G, G, atol=1e-9) or np.abs(st2.nye).max() > 1e-8:
+            return ('with one shared list of p vectors the lattice-correspondence tensor is not the inverse transpose of F', '')
+        res = defect.nye_tensor(s1, pv, cutoff=cutoff, theta_max=27)
+        if np.abs(res['Nye_tensor']).max() > 1e-8:
+            return ('nye_tensor() does not vanish for a homogeneous deformation', 'max %r' % np.abs(res['Nye_tensor']).max())
+        if not np.allclose(res['strain'], mat(c['strain']), atol=1e-9):
+            return ('nye_tensor() strain is not sym(I - G)', '')
     # ---- history on ONE Strain object: read derived properties, deform the system in place, re-solve, read again --------------
     if c.get('next') is not None:
         c2 = c['next']
@@ -167,15 +212,6 @@ def homog_case(am, defect, c, perm, inv, shift, u):
         if not np.allclose(st.strain, mat(c2['strain']), atol=1e-9) or not np.allclose(st.rotation, mat(c2['rotation']), atol=1e-9) \
                 or not np.allclose(st.invariant1, fr(c2['inv1']), atol=1e-9):
             return ('after re-solving on the same object strain / rotation / invariant still belong to the previous deformation', '')
-    # the function interface with explicit p vectors taken from the reference crystal
-    nl0 = s0.neighborlist(cutoff=np.sqrt(c['cut2']) * u)
-    pv = s0.dvect(0, nl0[0])
-    if len(set(a['t'] for a in c['atoms'])) == 1 and c['crystal'] != 'sc':
-        res = defect.nye_tensor(s1, pv, cutoff=cutoff, theta_max=27)
-        if np.abs(res['Nye_tensor']).max() > 1e-8:
-            return ('nye_tensor() does not vanish for a homogeneous deformation', 'max %r' % np.abs(res['Nye_tensor']).max())
-        if not np.allclose(res['strain'], mat(c['strain']), atol=1e-9):
-            return ('nye_tensor() strain is not sym(I - G)', '')
     return None
 
 
